@@ -3,6 +3,7 @@ package main
 import (
 	"go/ast"
 	"go/token"
+	"sort"
 	"strings"
 )
 
@@ -141,7 +142,15 @@ func extractUtxo() {
 			}
 		}
 	}
-	l.def("notifyRequestsSeq", "List String", lstrs(nseq), "map deletions and deliveries of notifyRequests in source order")
+	// the deletions before the first delivery are independent of one another (three different
+	// maps, one key): list them sorted, so that only "which maps, all before deliver" is pinned
+	for i := 0; i < len(nseq); i++ {
+		if nseq[i] == "deliver" {
+			sort.Strings(nseq[:i])
+			break
+		}
+	}
+	l.def("notifyRequestsSeq", "List String", lstrs(nseq), "map deletions (sorted: their order is immaterial) and deliveries of notifyRequests, deletions before the first delivery")
 	shape["notifyRequestsSeq"] = nseq
 
 	// 4b. what the watch list is rebuilt from: `for _, entry := range <X> { b.filterEntries = append(b.filterEntries, entry) }`
